@@ -265,6 +265,22 @@ fn lib_models_small(run: &mut Run, rng: &mut Rng) {
     let Ok(nclookup) = NonContiguousLookupDecoderModel::<i32, u16, Vec<(u16, i32)>, Box<[u16]>, 12>::from_symbols_and_floating_point_probabilities_fast(labels.iter().copied(), &v, None) else { return };
     let Ok(ncdec) = NonContiguousCategoricalDecoderModel::<i32, u16, Vec<(u16, i32)>, 12>::from_symbols_and_floating_point_probabilities_fast(labels.iter().copied(), &v, None) else { return };
     let qc = gen_quantized::<i16, u16, 12>(rng, 3000);
+    // narrow symbol types, supports up to the whole type range
+    let qc_i8 = gen_quantized::<i8, u16, 12>(rng, 256);
+    let qc_u8 = gen_quantized::<u8, u16, 12>(rng, 256);
+    // quantised models whose (third-party) CDF is not monotone at the probed points are outside
+    // the quantifier ("well-formed models"): do not decode with them
+    for (ok, lo, hi, d) in [
+        (cdf_precondition_holds(qc.model.inner(), qc.lo, qc.hi).is_ok(), qc.lo, qc.hi, "i16"),
+        (cdf_precondition_holds(qc_i8.model.inner(), qc_i8.lo, qc_i8.hi).is_ok(), qc_i8.lo, qc_i8.hi, "i8"),
+        (cdf_precondition_holds(qc_u8.model.inner(), qc_u8.lo, qc_u8.hi).is_ok(), qc_u8.lo, qc_u8.hi, "u8"),
+    ] {
+        if !ok {
+            let _ = (lo, hi, d);
+            run.count("third_party_cdf_precondition_violated", 1);
+            return;
+        }
+    }
     let uni_range = rng.usize_in(2, 4096);
     let uni = UniformModel::<u16, 12>::new(uni_range);
     let k = if run.small { 20 } else { 150 };
@@ -272,7 +288,7 @@ fn lib_models_small(run: &mut Run, rng: &mut Rng) {
         ($dec:expr, $errok:expr) => {{
             let mut d = $dec;
             for i in 0..k {
-                let which = rng.below(7);
+                let which = rng.below(9);
                 macro_rules! chk {
                     ($r:expr, $inside:expr, $name:expr) => {{
                         match $r {
@@ -302,6 +318,14 @@ fn lib_models_small(run: &mut Run, rng: &mut Rng) {
                     5 => {
                         qc.model.inner().reset();
                         chk!(d.decode_symbol(&qc.model), |g: &i16| (*g as i64) >= qc.lo && (*g as i64) <= qc.hi, "LeakilyQuantizedDistribution")
+                    }
+                    6 => {
+                        qc_i8.model.inner().reset();
+                        chk!(d.decode_symbol(&qc_i8.model), |g: &i8| (*g as i64) >= qc_i8.lo && (*g as i64) <= qc_i8.hi, "LeakilyQuantizedDistribution<i8>")
+                    }
+                    7 => {
+                        qc_u8.model.inner().reset();
+                        chk!(d.decode_symbol(&qc_u8.model), |g: &u8| (*g as i64) >= qc_u8.lo && (*g as i64) <= qc_u8.hi, "LeakilyQuantizedDistribution<u8>")
                     }
                     _ => chk!(d.decode_symbol(&uni), |g: &usize| *g < uni_range, "UniformModel"),
                 }
@@ -340,7 +364,11 @@ fn lib_models_default(run: &mut Run, rng: &mut Rng) {
     run.note(|| desc.clone());
     let Ok(eager) = ContiguousCategoricalEntropyModel::<u32, Vec<u32>, 24>::from_floating_point_probabilities_fast(&v32, None) else { return };
     let Ok(lazy) = LazyContiguousCategoricalEntropyModel::<u32, f32, &[f32], 24>::from_floating_point_probabilities_fast(&v32[..], None) else { return };
-    let qc = gen_quantized::<i32, u32, 24>(rng, 100_000);
+    let qc = gen_quantized::<i32, u32, 24>(rng, 4000);
+    if cdf_precondition_holds(qc.model.inner(), qc.lo, qc.hi).is_err() {
+        run.count("third_party_cdf_precondition_violated", 1);
+        return;
+    }
     let k = if run.small { 20 } else { 150 };
     let mut ans = AnsCoder::<u32, u64, _>::from_binary(Cursor::new_at_write_end(&data[..])).unwrap_infallible();
     let mut rd = RangeDecoder::<u32, u64, _>::from_compressed(&data[..]).unwrap_infallible();
